@@ -156,7 +156,20 @@ pub fn mode_hist(a: &Args) -> i32 {
         let kind = kinds[(idx as usize) % kinds.len()];
         let hasher = hashers[((idx as usize) / kinds.len()) % hashers.len()].clone();
         let pname = profiles[rng.below(profiles.len())].clone();
-        let prof = gen::profile(&pname, &mut rng);
+        let mut prof = gen::profile(&pname, &mut rng);
+        if a.u("noleak", 0) == 1 {
+            prof.allow_leak = false;
+        }
+        // slow interpreters (Miri, memcheck): keep every episode small
+        if let Some(u) = a.kv.get("cap_universe") {
+            let u: u32 = u.parse().unwrap();
+            prof.universe = prof.universe.min(u);
+            prof.target = prof.target.min(u as usize);
+            prof.bulk_max = prof.bulk_max.min(u as usize + 2);
+        }
+        if let Some(st) = a.kv.get("cap_steps") {
+            prof.steps = prof.steps.min(st.parse().unwrap());
+        }
         journal.line(&format!("EP {}", serde_json::json!({"mode":"hist","seed":seed,"shard":shard,"index":idx,"kind":kind.name(),"hasher":hasher,"profile":pname})));
         let mut jf = |s: &str| journal.line(s);
         let j: Option<&mut dyn FnMut(&str)> = if trace { Some(&mut jf) } else { None };
@@ -180,12 +193,12 @@ pub fn mode_replay(a: &Args) -> i32 {
     let mut files: Vec<String> = Vec::new();
     let dir = a.s("dir", "");
     if !dir.is_empty() {
-        let prefix = a.s("prefix", "");
-        let notprefix = a.s("notprefix", "");
+        let prefixes = a.list("prefix", "");
+        let notprefixes = a.list("notprefix", "");
         let mut names: Vec<String> = std::fs::read_dir(&dir).expect("read corpus dir").filter_map(|e| e.ok()).map(|e| e.file_name().to_string_lossy().to_string()).collect();
         names.sort();
         for n in names {
-            if n.ends_with(".json") && n.starts_with(&prefix) && (notprefix.is_empty() || !n.starts_with(&notprefix)) {
+            if n.ends_with(".json") && (prefixes.is_empty() || prefixes.iter().any(|p| n.starts_with(p.as_str()))) && !notprefixes.iter().any(|p| n.starts_with(p.as_str())) {
                 files.push(format!("{}/{}", dir, n));
             }
         }
